@@ -847,6 +847,43 @@ func txSetAdd(set, f string) string {
 
 var txPhiDepth int
 
+// txRecvAlias: values that denote the reader although they are not the parameter
+// itself: loads of the cell a captured parameter is spilled into, loads of the
+// free variable a closure sees it through.
+var txRecvAlias = map[ssa.Value]ssa.Value{}
+
+func txNoteAliases(fn *ssa.Function, recv ssa.Value) {
+	for _, b := range fn.Blocks {
+		for _, ins := range b.Instrs {
+			ld, ok := ins.(*ssa.UnOp)
+			if !ok || ld.Op != token.MUL {
+				continue
+			}
+			switch cell := ld.X.(type) {
+			case *ssa.FreeVar:
+				if ssa.Value(cell) == recv {
+					txRecvAlias[ld] = recv
+				}
+			case *ssa.Alloc:
+				if refs := cell.Referrers(); refs != nil {
+					n, isRecv := 0, false
+					for _, ref := range *refs {
+						if st, ok := ref.(*ssa.Store); ok && st.Addr == ssa.Value(cell) {
+							n++
+							if st.Val == recv {
+								isRecv = true
+							}
+						}
+					}
+					if n == 1 && isRecv {
+						txRecvAlias[ld] = recv
+					}
+				}
+			}
+		}
+	}
+}
+
 // txChain: the field names from the receiver to an address (x.f -> [f], x.f[i].g
 // -> [f g], (*x.f).g -> [f g], x.cur.f -> [cur f]) and, per element, whether a
 // pointer was followed (a load) or an element taken before it.
@@ -857,7 +894,7 @@ func txChain(recv ssa.Value, a ssa.Value) (names []string, via []bool, ok bool) 
 		if _, f := fieldAddrInfo(x); f != nil {
 			name = f.Name()
 		}
-		if x.X == recv {
+		if x.X == recv || txRecvAlias[x.X] == recv {
 			return []string{name}, []bool{false}, true
 		}
 		n, v, ok := txChain(recv, x.X)
@@ -1031,7 +1068,7 @@ func (t *txChecker) eventsOf(fn *ssa.Function, recv ssa.Value) (map[ssa.Instruct
 					if ai >= len(sc.Params) || t.loaders[sc] {
 						continue
 					}
-					if a == recv {
+					if a == recv || txRecvAlias[a] == recv {
 						inline[ins] = sc
 						inlineRecv[ins] = sc.Params[ai]
 					} else if ai == 0 && x.Call.Signature().Recv() != nil {
@@ -1114,7 +1151,25 @@ func txFlagGet(flags, key string) string {
 	return ""
 }
 
+// txCellOf: the free variables of a closure stand for the cells they are bound to.
+var txCellOf = map[*ssa.FreeVar]ssa.Value{}
+
 func txErrKey(v ssa.Value) string {
+	// the current content of an error cell (a named result that a deferred closure reads)
+	if ld, ok := v.(*ssa.UnOp); ok && ld.Op == token.MUL {
+		switch cell := ld.X.(type) {
+		case *ssa.Alloc:
+			if cell.Parent() != nil {
+				return "c:" + cell.Parent().Name() + ":" + cell.Name()
+			}
+		case *ssa.FreeVar:
+			if bound, ok := txCellOf[cell]; ok {
+				if al, ok := bound.(*ssa.Alloc); ok && al.Parent() != nil {
+					return "c:" + al.Parent().Name() + ":" + al.Name()
+				}
+			}
+		}
+	}
 	if in, ok := v.(ssa.Instruction); ok && in.Parent() != nil {
 		return "e:" + in.Parent().Name() + ":" + v.Name()
 	}
@@ -1123,6 +1178,7 @@ func txErrKey(v ssa.Value) string {
 
 // run explores fn from its entry in state in and returns the states at its returns.
 func (t *txChecker) run(fn *ssa.Function, recv ssa.Value, in txState, depth int) []txOut {
+	txNoteAliases(fn, recv)
 	events, forks, inline, inlineRecv := t.eventsOf(fn, recv)
 	// bool fields of the reader that fn only reads: two tests of the same flag agree
 	flagOf := func(v ssa.Value) (string, bool, bool) {
@@ -1223,6 +1279,74 @@ func (t *txChecker) run(fn *ssa.Function, recv ssa.Value, in txState, depth int)
 		for idx := n.i; idx < len(b.Instrs); idx++ {
 			ins := b.Instrs[idx]
 			t.apply(&cur, events[ins])
+			if st, isSt := ins.(*ssa.Store); isSt {
+				if cell, isCell := st.Addr.(*ssa.Alloc); isCell && isErrorType(st.Val.Type()) && cell.Parent() != nil {
+					key := "c:" + cell.Parent().Name() + ":" + cell.Name()
+					switch {
+					case isNilConst(st.Val):
+						cur.flags = txFlagSet(cur.flags, key, "0")
+					case txFlagGet(cur.flags, txErrKey(st.Val)) != "":
+						cur.flags = txFlagSet(cur.flags, key, txFlagGet(cur.flags, txErrKey(st.Val)))
+					default:
+						cur.flags = txFlagSet(cur.flags, key, "?")
+					}
+				}
+			}
+			if _, isRD := ins.(*ssa.RunDefers); isRD && depth < 3 {
+				// deferred closures of this function that were registered on the way here
+				states := []txState{cur}
+				for _, db := range fn.Blocks {
+					if !(db == b || db.Dominates(b)) {
+						continue
+					}
+					for _, di := range db.Instrs {
+						d, ok := di.(*ssa.Defer)
+						if !ok {
+							continue
+						}
+						mc, ok := d.Call.Value.(*ssa.MakeClosure)
+						if !ok {
+							continue
+						}
+						cl, ok := mc.Fn.(*ssa.Function)
+						if !ok || cl.Blocks == nil {
+							continue
+						}
+						var clRecv ssa.Value
+						for k, bnd := range mc.Bindings {
+							if k >= len(cl.FreeVars) {
+								break
+							}
+							txCellOf[cl.FreeVars[k]] = bnd
+							// the cell the receiver was spilled into
+							if al, ok := bnd.(*ssa.Alloc); ok && al.Referrers() != nil {
+								for _, ref := range *al.Referrers() {
+									if st, ok := ref.(*ssa.Store); ok && st.Addr == ssa.Value(al) && (st.Val == recv || txRecvAlias[st.Val] == recv) {
+										clRecv = cl.FreeVars[k]
+									}
+								}
+							}
+						}
+						if clRecv == nil {
+							continue
+						}
+						var next []txState
+						for _, st0 := range states {
+							for _, o := range t.run(cl, clRecv, st0, depth+1) {
+								next = append(next, o.st)
+							}
+						}
+						if len(next) > 0 {
+							states = next
+						}
+					}
+				}
+				for _, st0 := range states {
+					push(node{b: b, i: idx + 1, st: st0})
+				}
+				split = true
+				break
+			}
 			if f, isFork := forks[ins]; isFork {
 				call := ins.(*ssa.Call)
 				okSt, failSt := cur, cur
